@@ -450,3 +450,299 @@ PROPS["C10"] = dict(
         thorough=[native("dbg"), native("rel"), custom("c10_processes", builds=["cli", "dbg"], n=400, reps=8)],
     ),
 )
+
+
+def _strip_ws(s):
+    return "".join(s.split())
+
+
+def c20_cli(c):
+    """Differential: recorded behaviour of the freshly built `rrss` binary vs recorded library behaviour."""
+    import concurrent.futures as cf
+    import subprocess
+    st = c["stage"]
+    flavour = st.get("cli", "cli")
+    binary = c["binaries"][flavour]
+    vcheck = c["binaries"]["dbg"]
+    merged = c["merged"]
+    d = os.path.join(c["outdir"], f"cases_{flavour}")
+    os.makedirs(d, exist_ok=True)
+    n = st.get("n", 200)
+    rc, out, err, to = c["run_proc"]([vcheck, "emit", "C20", "--out", d, "--seed", str(c["seed"]), "--n", str(n)], 1200)
+    if rc != 0:
+        c["inconclusive"].append(f"emit C20 failed: {err[-300:]}")
+        return
+
+    def viol(sig, detail, i, cmd):
+        src = open(f"{d}/case_{i}.rock", encoding="utf-8").read()
+        replay = dict(property="C20", signature=sig, detail=detail, case=dict(src=src, stdin_file=f"{d}/case_{i}.stdin"),
+                      tier=c["tier"], seed=c["seed"], cmd=["/bin/sh", "-c", f"{' '.join(cmd)} < {d}/case_{i}.stdin"],
+                      note="compare with the library-side record next to the case file (case_N.lib.json)")
+        merged.add_violation(sig, detail, replay)
+
+    def one(i):
+        base = f"{d}/case_{i}"
+        if not os.path.exists(base + ".lib.json"):
+            return None
+        lib = json.load(open(base + ".lib.json", encoding="utf-8"))
+        stdin = open(base + ".stdin", "rb").read()
+        res = {}
+        for sub in ("exec", "lint", "parse"):
+            cmd = [binary, sub, base + ".rock"]
+            rc, out, err, to = c["run_proc"](cmd, 60, stdin=stdin)
+            if to:
+                return ("timeout", i)
+            res[sub] = (rc, out, err)
+        # merged stream: stdout and stderr on ONE pipe
+        p = subprocess.run([binary, "exec", base + ".rock"], input=stdin, stdout=subprocess.PIPE, stderr=subprocess.STDOUT,
+                           env=c["ENV"], timeout=60)
+        res["merged"] = p.stdout
+        return ("ok", i, lib, res)
+
+    with cf.ThreadPoolExecutor(max_workers=c["NCPU"]) as ex:
+        results = [r for r in ex.map(one, range(n)) if r is not None]
+    runs = 0
+    classes = {}
+    nontrivial = 0
+    for r in results:
+        if r[0] == "timeout":
+            merged.inconclusive["cli_watchdog"] = merged.inconclusive.get("cli_watchdog", 0) + 1
+            continue
+        _, i, lib, res = r
+        runs += 4
+        base = f"{d}/case_{i}"
+        rc, out, err = res["exec"]
+        outs = out.decode("utf-8", "replace")
+        errs = err.decode("utf-8", "replace")
+        if not lib["parse_ok"]:
+            cls = "parse_error"
+            msg = lib["parse_error"]
+            for sub in ("exec", "lint", "parse"):
+                rc2, out2, err2 = res[sub]
+                e2 = err2.decode("utf-8", "replace")
+                if out2 != b"":
+                    viol(f"cli:{sub}:stdout_on_parse_error", f"stdout {out2[:200]!r} although the file does not parse", i, [binary, sub, base + ".rock"])
+                if "Parse error: " not in e2 or msg not in e2:
+                    viol(f"cli:{sub}:parse_error_not_reported_on_stderr", f"stderr {e2[:300]!r}, library message {msg!r}", i, [binary, sub, base + ".rock"])
+        else:
+            want = lib["stdout"]
+            if outs != want:
+                viol("cli:exec:stdout_differs", f"binary wrote {outs[:300]!r}, library wrote {want[:300]!r}", i, [binary, "exec", base + ".rock"])
+            if lib["exec_error"] is None:
+                cls = "success"
+                if errs != "":
+                    viol("cli:exec:stderr_on_success", f"stderr {errs[:300]!r}", i, [binary, "exec", base + ".rock"])
+                if rc != 0:
+                    viol("cli:exec:nonzero_exit_on_success", f"exit status {rc}", i, [binary, "exec", base + ".rock"])
+            else:
+                cls = "runtime_error_after_output" if want else "runtime_error"
+                if "Runtime error: " not in errs or lib["exec_error"] not in errs:
+                    viol("cli:exec:runtime_error_not_reported_on_stderr", f"stderr {errs[:300]!r}, library message {lib['exec_error']!r}", i, [binary, "exec", base + ".rock"])
+                m = res["merged"].decode("utf-8", "replace")
+                if not m.startswith(want) or "Runtime error: " not in m[len(want):]:
+                    viol("cli:exec:error_not_after_output", f"merged stream {m[:300]!r}, program output {want[:200]!r}", i, [binary, "exec", base + ".rock"])
+            # lint
+            rc2, out2, err2 = res["lint"]
+            o2 = out2.decode("utf-8", "replace")
+            if not lib["lint"]:
+                if "No lint issues found" not in o2:
+                    viol("cli:lint:no_issue_message_missing", f"stdout {o2[:300]!r}", i, [binary, "lint", base + ".rock"])
+            else:
+                pos = 0
+                for dg in lib["lint"]:
+                    for piece in [f"(line {dg['line']})", dg["issue"]] + dg["suggestions"]:
+                        k = o2.find(piece, pos)
+                        if k < 0:
+                            viol("cli:lint:diagnostic_missing_or_out_of_order",
+                                 f"{piece[:120]!r} not found (in order) in {o2[:400]!r}", i, [binary, "lint", base + ".rock"])
+                            break
+                        pos = k + len(piece)
+                    else:
+                        continue
+                    break
+                if o2.count("Lint issue: ") != len(lib["lint"]):
+                    viol("cli:lint:number_of_diagnostics_differs", f"{o2.count('Lint issue: ')} printed, library has {len(lib['lint'])}", i, [binary, "lint", base + ".rock"])
+            # parse
+            rc3, out3, err3 = res["parse"]
+            if _strip_ws(out3.decode("utf-8", "replace")) != _strip_ws(lib["tree_pretty"]):
+                viol("cli:parse:tree_differs", f"binary printed {out3[:200]!r}", i, [binary, "parse", base + ".rock"])
+            if want and lib["stdout"]:
+                nontrivial += 1
+        classes[cls] = classes.get(cls, 0) + 1
+        merged.hashes.add(hash((flavour, i, lib.get("stdout", ""), lib.get("parse_error", ""))) & 0xFFFFFFFFFFFFFFFF)
+    # usage errors
+    usage = [
+        ([binary, "exec", f"{d}/definitely_missing_file.rock"], "missing_file"),
+        ([binary, "lint", f"{d}/definitely_missing_file.rock"], "missing_file"),
+        ([binary, "parse", f"{d}/definitely_missing_file.rock"], "missing_file"),
+        ([binary, "exec"], "missing_argument"),
+        ([binary, "frobnicate", f"{d}/case_0.rock"], "unknown_subcommand"),
+        ([binary, "--no-such-flag"], "unknown_flag"),
+    ]
+    for cmd, what in usage:
+        rc, out, err, to = c["run_proc"](cmd, 60, stdin=b"")
+        runs += 1
+        merged.counters[f"usage.{what}"] = merged.counters.get(f"usage.{what}", 0) + 1
+        if rc == 0:
+            replay = dict(property="C20", signature=f"cli:usage:{what}:exit_0", detail=f"{cmd} exited 0", case={}, cmd=cmd,
+                          tier=c["tier"], seed=c["seed"])
+            merged.add_violation(f"cli:usage:{what}:exit_0", f"`{' '.join(cmd[1:])}` exited with status 0", replay)
+    merged.evaluations += runs
+    merged.counters[f"process_runs.{flavour}"] = merged.counters.get(f"process_runs.{flavour}", 0) + runs
+    for k, v in classes.items():
+        merged.counters[f"outcome.{k}"] = merged.counters.get(f"outcome.{k}", 0) + v
+    merged.counters["cases"] = merged.counters.get("cases", 0) + len(results)
+    if len(merged.samples) < 3 and results:
+        for r in results[:2]:
+            if r[0] == "ok":
+                _, i, lib, res = r
+                merged.samples.append(dict(src=open(f"{d}/case_{i}.rock", encoding="utf-8").read()[:600],
+                                           library_stdout=lib.get("stdout", "")[:200], library_error=lib.get("exec_error"),
+                                           binary_stdout=res["exec"][1].decode("utf-8", "replace")[:200],
+                                           binary_stderr=res["exec"][2].decode("utf-8", "replace")[:200]))
+
+
+def c20_valgrind(c):
+    """valgrind memcheck on the shipped release binary (thorough only)."""
+    st = c["stage"]
+    binary = c["binaries"]["cli"]
+    d = os.path.join(c["outdir"], "cases_cli")
+    n = st.get("n", 50)
+    merged = c["merged"]
+    import concurrent.futures as cf
+
+    def one(i):
+        base = f"{d}/case_{i}"
+        if not os.path.exists(base + ".rock"):
+            return None
+        stdin = open(base + ".stdin", "rb").read()
+        cmd = ["valgrind", "--quiet", "--error-exitcode=99", "--leak-check=no", binary, "exec", base + ".rock"]
+        rc, out, err, to = c["run_proc"](cmd, 300, stdin=stdin)
+        return i, rc, err.decode("utf-8", "replace"), to, cmd
+
+    with cf.ThreadPoolExecutor(max_workers=c["NCPU"]) as ex:
+        results = [r for r in ex.map(one, range(n)) if r is not None]
+    for i, rc, err, to, cmd in results:
+        if to:
+            merged.inconclusive["valgrind_watchdog"] = merged.inconclusive.get("valgrind_watchdog", 0) + 1
+            continue
+        if rc == 99:
+            m = re.search(r"==\d+== (Invalid|Conditional|Use of|Mismatched|Source and)[^\n]*", err)
+            what = m.group(0).split("== ", 1)[1][:60] if m else "memcheck error"
+            sig = f"valgrind:{what}"
+            replay = dict(property="C20", signature=sig, detail=err[-2000:], case={}, cmd=cmd, tier=c["tier"], seed=c["seed"])
+            merged.add_violation(sig, err[-1500:], replay)
+    merged.counters["sanitizer.valgrind.runs"] = len(results)
+    merged.evaluations += len(results)
+
+
+PROPS["C15"] = dict(
+    level="exploration",
+    technique="metamorphic relation between two recorded runs of rrss: program vs injectively renamed + re-cased program (keyword/pronoun case and aliases through the spelling)",
+    level_text=("Every name of a program (variables, parameters, functions) is replaced injectively by a fresh name of a random kind "
+                "(simple, common with any prefix, proper with 2-4 words; ASCII and accented letters with one-to-one case mappings), "
+                "every mention is re-cased, and the text is re-rendered with varying keyword aliases and cases; stdout and the "
+                "outcome class (Ok / error variant with names erased) of the transformed program must equal the original's. "
+                "Corpus: the valid and erroring programs of C03-C07's generators; 4 (quick) / 16 (thorough) transforms each."),
+    level_note="Only programs the reference model follows to the end within the budget are used (others may need unbounded resources). Letters whose case mapping is not one-to-one are excluded: 'without regard to case' is not well defined there.",
+    rule=("cases = executions of original and transformed programs; distinct_nontrivial = distinct transformed program texts whose stdout and outcome equalled the original's."),
+    require=["transforms", "mentions_renamed_and_recased", "programs.c03", "programs.c04", "programs.c05", "programs.c06",
+             "programs.c07", "set:kind_to_kind:9", "set:mention_positions:16", "set:base_outcomes:8"],
+    assumptions=TRUST_BASE,
+    stages=dict(quick=[native("dbg")], thorough=[native("dbg"), native("rel")]),
+)
+
+PROPS["C16"] = dict(
+    level="exploration",
+    technique="recording visitors implemented outside the crate (leaf recorder + 15 single-node-type probe recorders + a statement recorder) vs an own model traversal; failure injection at every callback index",
+    level_text=("For each parsed tree the event log of a walk with ExprVisitorRunner must be exactly the model traversal (a node missing, "
+                "presented twice or out of order is a mismatch); 15 further recorders each override one inner-node callback without "
+                "descending, so every node type is observed exactly where it is presented; the folded result must be the left-to-right "
+                "concatenation of the callback results; with a failure injected at callback k (every k for the leaf recorder, "
+                "sampled k for the probes) exactly k callbacks may happen and the injected error must come back unchanged. The default "
+                "VisitProgram traversal is checked the same way at statement level. At BinaryExpression and Assignment both field order "
+                "and source order of the children are accepted."),
+    level_note="Failure positions are enumerated completely per tree for the leaf recorder.",
+    rule=("cases = walks (tree x recorder x failure position); distinct_nontrivial = distinct program texts for which all 16 recorders and the statement recorder matched."),
+    exhaustive="per tree: every failure position k of the leaf recorder",
+    require=["trees", "walks_matched", "events_compared", "failure_injection_runs", "set:node_types_observed:15",
+             "set:statement_kinds:19", "set:event_types:9"],
+    assumptions=TRUST_BASE,
+    stages=dict(quick=[native("dbg")], thorough=[native("dbg"), native("rel")]),
+)
+
+PROPS["C17"] = dict(
+    level="exploration",
+    technique="differential between two recorded components of rrss (constant folder result vs executed output) plus syntactic classification of generated expressions",
+    level_text=("Generated all-constant arithmetic (number literals incl. 0, fractions, 1e308, 2^53+1; unary minus; + - * / with list "
+                "operands; depth <= 6; division by zero giving inf/NaN) must fold, and the interpreter - run on the same expression "
+                "after a prelude of disturbing definitions - must print exactly the folded value; the same expression with one leaf "
+                "replaced by a variable of any kind, a pronoun, an array element, a call or a pop must not fold. Poetic literals "
+                "(assignment and `rock like`) are folded and compared with execution; the string folder is checked on every literal form."),
+    level_note="Number texts are compared as text (f64 Display on both sides).",
+    rule=("cases = expressions; distinct_nontrivial = distinct program texts that were classified and, if folded, compared with execution."),
+    require=["constant_expressions", "non_constant_expressions", "folded_values_compared_with_execution", "non_constants_rejected",
+             "non_finite_results", "poetic_literals", "string_folder_cases", "set:leaf_forms:8", "set:string_forms:12"],
+    assumptions=TRUST_BASE,
+    stages=dict(quick=[native("dbg")], thorough=[native("dbg"), native("rel")]),
+)
+
+PROPS["C18"] = dict(
+    level="exploration",
+    technique="reference model of WHICH statements are reported (own constant evaluation over the model tree) + C11's digit rule for the suggested words + rrss itself re-parsing and executing every suggestion",
+    level_text=("Generated programs with all assignment forms (put/let, compound, lists, poetic with ordinary expression, rock with "
+                "list / poetic) at every nesting depth, constants of every class (zero digits, fractions, 10^k, 1e21, tiny, negative, "
+                "-0, inf, NaN, strings with spaces / punctuation / balanced parentheses / line breaks) and near-miss non-constants, "
+                "all three target forms. The set of (statement, target, value) the pass reports must equal the model's; the line must "
+                "be the statement's (single-line statements); the words of every suggestion must spell the printed value digit by "
+                "digit; for a plain-variable target the suggested line must parse, run and give the value back (4 ulp / exact "
+                "integers; 9 significant digits for numerals longer than 25 digits); values without a poetic spelling must get no "
+                "suggestion; the linter must not panic (debug and release)."),
+    level_note="Statements stretched over several lines by a multi-line string have no single correct line: their line is not checked.",
+    rule=("cases = linted programs; distinct_nontrivial = distinct program texts with >= 1 expected diagnostic whose diagnostics all matched."),
+    require=["programs", "candidate_statements", "diagnostics_matched", "diagnostic_lines_checked", "suggestions_spelling_checked",
+             "suggestions_round_tripped", "values_without_poetic_spelling_handled", "set:value_classes:11"],
+    assumptions=TRUST_BASE,
+    stages=dict(quick=[native("dbg"), native("rel")], thorough=[native("dbg"), native("rel")]),
+)
+
+PROPS["C19"] = dict(
+    level="exploration",
+    technique="metamorphic (combined linter vs single passes, program rendering before vs after), reference rule over recorded variable mentions, outcome monitor on every parsed program",
+    level_text=("Every parsed program of four corpora (programs dense in repeated mentions with mixed kinds and cases, programs dense in "
+                "constant assignments, accepted token soup / text mutants, ill-typed mutants) is linted under the outcome monitor: no "
+                "panic, the program's debug rendering unchanged, standard_linter() output == stable sort by line of the two passes run "
+                "alone (ties in pass order). The repeated-identifier pass is compared with the rule evaluated over the recorded "
+                "traversal of variable mentions: must-report (same spelling as the previous mention, neither a callee), must-not "
+                "(different name), don't-care (case differs only, previous is a callee name, either is a definition-header name)."),
+    level_note="Mention lines come from the parser's ranges (C12 checks token positions).",
+    rule=("cases = linted programs; distinct_nontrivial = distinct program texts with >= 1 diagnostic for which all checks passed."),
+    require=["programs_linted.repeats", "programs_linted.boring", "programs_linted.accepted_soup_or_mutant",
+             "programs_linted.ill_typed", "diagnostics", "line_ties_between_passes", "mentions.must_report",
+             "mentions.must_not_report", "mentions.dont_care", "programs_rule_checked"],
+    assumptions=TRUST_BASE,
+    stages=dict(quick=[native("dbg"), native("rel")], thorough=[native("dbg"), native("rel")]),
+)
+
+PROPS["C20"] = dict(
+    level="exploration",
+    technique="end-to-end differential: recorded process behaviour (stdout, stderr, merged stream, exit status) of the freshly built rrss binary vs recorded library behaviour in the harness; valgrind memcheck in thorough",
+    level_text=("For generated files (succeeding, failing at parse time, failing at run time after output, reading stdin; contents "
+                "from the other corpora and their mutants) x stdin contents (empty, no final newline, blank lines, non-ASCII, more "
+                "lines than consumed): `rrss exec` stdout must equal the bytes the library wrote, errors must be on stderr with their "
+                "prefix and the library's message and - on one merged pipe - after all program output, stderr must be empty on "
+                "success; `rrss lint` must print every library diagnostic in order (or the no-issue message); `rrss parse` must "
+                "print the library tree modulo whitespace; a missing file, missing argument or unknown subcommand must give a "
+                "non-zero exit status. Thorough adds the dev-profile binary and valgrind memcheck on the release binary."),
+    level_note="The binary is the shipped artifact: built from /repo without the verif feature.",
+    rule=("cases = process runs; distinct_nontrivial = distinct (file, stdin) cases compared on all four observations."),
+    require=["cases", "process_runs.cli", "outcome.success", "outcome.parse_error", "outcome.runtime_error_after_output",
+             "usage.missing_file", "usage.missing_argument", "usage.unknown_subcommand"],
+    assumptions=TRUST_BASE,
+    stages=dict(
+        quick=[custom("c20_cli", builds=["cli", "dbg"], n=240, cli="cli")],
+        thorough=[custom("c20_cli", builds=["cli", "dbg"], n=4000, cli="cli"),
+                  custom("c20_cli", builds=["cli-dev", "dbg"], n=1000, cli="cli-dev"),
+                  custom("c20_valgrind", builds=["cli"], n=60)],
+    ),
+)
